@@ -1,7 +1,31 @@
 import GffProofs.Props.C02
+import GffProofs.Props.C02b
+import GffProofs.Props.C02c
 open GffProofs.C02
 #print axioms import_relations_exact
 #print axioms order_independent
 #print axioms relation_query_exact
 #print axioms parents_inverse
 #print axioms not_self
+-- C02b: the update path
+#print axioms createDb_holds
+#print axioms update_preserves_relspec
+#print axioms runUpdates_preserves_relspec
+#print axioms update_equiv_create
+#print axioms updates_equiv_create
+#print axioms graph_relation_query_exact
+#print axioms updated_relation_query_exact
+#print axioms updates_relation_query_exact
+-- C02c: arbitrary query arguments
+#print axioms relation_query_exact_q
+#print axioms relation_query_sorted
+#print axioms relation_query_sorted_single
+#print axioms relation_query_unordered
+#print axioms relation_query_order_irrelevant
+#print axioms relation_query_featuretype
+#print axioms relation_query_featuretype_only
+#print axioms relation_query_strand
+#print axioms relation_query_limit_exact
+#print axioms parents_inverse_q
+#print axioms parents_inverse_filtered
+#print axioms graph_relation_query_exact_q
